@@ -20,7 +20,8 @@ Inductive obs :=
   | OGratN (a : adv) (n : N)
   | OName (n : N) (b : bool)
   | OArp (intf mac op dst tha : N) (t : ip) (d : drop) (replied : bool)   (* dst: ETHERNET destination; tha: ARP payload field *)
-  | ONdp (intf : N) (is_ns has_ll : bool) (t : ip) (d : drop).
+  | ONdp (intf : N) (is_ns has_ll : bool) (t : ip) (d : drop)
+  | OArpBad (intf : N) (d : drop) (replied : bool).   (* a frame the parsers reject, through the real read path *)
 
 Definition bn_eqb (a b : bool * N) : bool := Bool.eqb (fst a) (fst b) && N.eqb (snd a) (snd b).
 Definition subset (l l' : list (bool * N)) : bool := forallb (fun x => existsb (bn_eqb x) l') l.
@@ -41,6 +42,9 @@ Definition obs_ok (s : st) (o : obs) : bool :=
       let f := mk_arp_frame dst op tha t in
       admissible (arp_reasons s intf mac (f_op f) (f_eth_dst f) (f_target f)) d && Bool.eqb replied (drop_eqb d DNone)
   | ONdp intf ns ll t d => admissible (ndp_reasons s intf ns ll t) d
+  | OArpBad intf d replied =>
+      (* dropped, not answered, and NOT reported as "socket closed" (run() would exit); the label is free otherwise *)
+      negb (drop_eqb d DClosed) && negb (drop_eqb d DNone) && negb replied
   end.
 
 Record acase := mk_acase { c_id : N; c_arps : list N; c_ndps : list N;
